@@ -62,6 +62,7 @@ typedef struct cell {
   uintptr_t lo, hi;
   char name[40];
   int live;
+  size_t born, died; /* event-log positions between which this object owned the address range */
 } cell_t;
 
 static ev_t* evs;
@@ -271,6 +272,10 @@ void vr_obj(const volatile void* addr, size_t size, const char* fmt, ...) {
   c->lo = (uintptr_t)addr;
   c->hi = c->lo + size;
   c->live = 1;
+  c->born = 0; /* names apply to the whole log unless the block is freed ... */
+  for (int i = 0; i < nobj - 1; i++)
+    if (!objs[i].live && objs[i].lo < c->hi && c->lo < objs[i].hi) c->born = nev; /* ... or reused */
+  c->died = (size_t)-1;
   va_list ap;
   va_start(ap, fmt);
   vsnprintf(c->name, sizeof c->name, fmt, ap);
@@ -287,6 +292,37 @@ void vr_forget(const volatile void* addr, size_t size) {
     }
   for (int i = 0; i < nobj; i++)
     if (objs[i].live && objs[i].lo < hi && lo < objs[i].hi) objs[i].live = 0;
+}
+
+/* Memory handed back to the allocator must leave the registry: the next owner of the block
+ * (e.g. hazard_pointer_scan's plist landing on a destroyed fiber's queue node) is not the
+ * registered object any more.  free() is interposed for that; the real work is __libc_free. */
+extern void __libc_free(void*);
+extern size_t malloc_usable_size(void*);
+static _Atomic int reg_lock;
+__attribute__((weak)) void free(void* p) { /* weak: a harness may bring its own (quarantining) free */
+  if (p && inited && ncell) {
+    while (atomic_exchange(&reg_lock, 1)) {
+    }
+    uintptr_t lo = (uintptr_t)p, hi = lo + malloc_usable_size(p);
+    int any = 0;
+    for (uintptr_t w = lo >> 3; w <= (hi - 1) >> 3; w++) {
+      int c = hget(w);
+      if (c >= 0 && cells[c].live && cells[c].lo >= lo && cells[c].hi <= hi) {
+        cells[c].live = 0;
+        hput(w, -1);
+        any = 1;
+      }
+    }
+    if (any)
+      for (int i = 0; i < nobj; i++)
+        if (objs[i].live && objs[i].lo >= lo && objs[i].hi <= hi) {
+          objs[i].live = 0;
+          objs[i].died = nev;
+        }
+    atomic_store(&reg_lock, 0);
+  }
+  __libc_free(p);
 }
 
 static inline int find_cell(uintptr_t a, int size) {
@@ -340,10 +376,11 @@ static const char* symname(void* pc) {
   return "?";
 }
 
+static size_t fmt_pos; /* log position of the event being formatted */
 static void fmtval(char* out, size_t n, uint64_t v) {
   if (v >= 4096) {
     for (int i = nobj - 1; i >= 0; i--)
-      if (v >= objs[i].lo && v < objs[i].hi) {
+      if (v >= objs[i].lo && v < objs[i].hi && objs[i].born <= fmt_pos && fmt_pos < objs[i].died) {
         if (v == objs[i].lo) snprintf(out, n, "@%s", objs[i].name);
         else snprintf(out, n, "@%s+%lu", objs[i].name, (unsigned long)(v - objs[i].lo));
         return;
@@ -371,6 +408,7 @@ static void dump_log(const char* status) {
   char a[64], b[64], c[64], d[64], cn[64];
   for (size_t i = 0; i < nev; i++) {
     ev_t* e = &evs[i];
+    fmt_pos = i;
     const char* fn = symname(e->pc);
     if (e->kind == K_NOTE) {
       fprintf(f, "%d %d %s note %s\n", e->tid, e->fiber, fn, e->note);
